@@ -145,3 +145,18 @@ def _install_log_capture():
 
 
 _install_log_capture()
+
+
+def cli_args(input_file, output_file, fmt, mapping, copier_header, defines, dump_symbols=False):
+    """Command line of x816 for the given option values (native: sets sys.argv; symbolic: the namespace the argparse
+    model returns from parse_args())."""
+    import sys
+    argv = ["x816", "-o", output_file, "-f", fmt, "-m", mapping]
+    if copier_header:
+        argv.append("--copier-header")
+    if dump_symbols:
+        argv.append("--dump-symbols")
+    if defines:
+        argv += ["-D"] + list(defines)
+    argv.append(input_file)
+    sys.argv = argv
